@@ -966,3 +966,68 @@ def store_special(ctx, test):
                               hw, lines[min(hw, len(lines)) - 1], lines[max(0, hw - 3):hw - 1]), {"kind": "cadence", "lines": lines[max(0, hw - 10):hw + 2]})
         out["validated"] = 1 if run.code == 0 else 0
     return out
+
+
+# ----------------------------------------------------------------------------- C15
+def describe_upd_event(ev):
+    return json.dumps({k: v for k, v in ev.items()}, sort_keys=True)[:160]
+
+
+def race_blocks(path):
+    out = open(path, errors="replace").read()
+    blocks = [b for b in out.split("==================") if "WARNING: DATA RACE" in b]
+    real = [b for b in blocks if "/repo/" in b or "github.com/tailscale/setec/" in b]
+    return blocks, real
+
+
+@check("C15")
+def c15(ctx):
+    th = ctx.thorough
+    cfg = open(os.path.join(VERIF, "spec", "cfg", "UpdaterMC.cfg")).read()
+    runs = []
+    if th:
+        runs.append(ctx.tlc("UpdaterMC", cfg, workers=NCPU, name="full", timeout=3000, heap="12g"))
+    else:
+        runs.append(ctx.tlc("UpdaterMC", cfg, workers=NCPU, name="one-name", timeout=1200, heap="8g", consts={"NameSet": '{"a"}'}))
+        runs.append(ctx.tlc("UpdaterMC", cfg, workers=NCPU, name="one-getter", timeout=1200, heap="8g", consts={"GetterSet": '{"t1"}'}))
+    for r in runs:
+        ctx.tlc_must_pass(r, "Updater: WakeNotLost, ReturnFresh, NoSpuriousBuild, CloseOnce, AllClosed, FailKeeps over all interleavings")
+    tot = {"accepted": 0, "events": 0, "histories": 0, "states": 0}
+    samples, counters = [], {}
+    for conc in (0, 1):
+        n = (1500 if th else 150) if conc == 0 else (2500 if th else 250)
+        results, wd, code = ctx.godrive("updater", "^TestUpdaterHistories$", env={"VERIF_CONC": conc, "VERIF_TRACES": n},
+                                        name="upd-%d" % conc, race=bool(conc), allow_fail=True, timeout=1700)
+        blocks, real = race_blocks(os.path.join(wd, "driver.out"))
+        if blocks and not real:
+            raise ToolTrouble("race inside the harness itself (no verdict):\n" + blocks[0][:2500])
+        if real:
+            i = real[0].index("WARNING: DATA RACE")
+            ctx.violation("data race (updater)", "the race detector reports a data race among Updater.Get callers, NewUpdater and polls:\n" +
+                          real[0][i:i + 1800], {"kind": "race", "report": real[0][i:i + 6000]})
+        if "updater-histories" not in results:
+            if real:
+                continue
+            raise ToolTrouble("updater driver died:\n" + open(os.path.join(wd, "driver.out"), errors="replace").read()[-3000:])
+        r = ctx.take(results, "updater-histories")
+        for k, v in r["counters"].items():
+            counters[k] = counters.get(k, 0) + v
+        st = validate_branching(ctx, "UpdaterTrace", "UpdaterTrace.cfg", os.path.join(wd, "trace.ndjson"), 16 if th else 8,
+                                "updater/%s" % ("concurrent" if conc else "sequential"), {"dict.ndjson": os.path.join(wd, "dict.ndjson")},
+                                describe=describe_upd_event)
+        for k in tot:
+            tot[k] += st[k]
+        samples += (r.get("samples") or [])[:1]
+    cov = {"states": sum(r.distinct for r in runs), "transitions": sum(r.generated for r in runs),
+           "traces_validated_against_impl": tot["accepted"], "samples": samples, "trace_events_validated": tot["events"],
+           "histories_recorded": tot["histories"], "gets": counters.get("gets", 0), "builder_invocations": counters.get("builds", 0),
+           "explanation": "Updater.tla splits NewUpdater (register / read / build) and Get (take u.mu + drain / read / build / close old / return) at the "
+                          "code's critical sections and lets installs happen between any two of them; TLC checks WakeNotLost, ReturnFresh, "
+                          "NoSpuriousBuild, CloseOnce, AllClosed and FailKeeps over all interleavings of 2 updaters, 1-2 concurrent Get callers, 1-2 names, "
+                          "install bursts and builder failures. Real updaters on a real Store are driven sequentially (bursts of 1-3 installs between "
+                          "Gets, builder failures, several updaters, two names) and concurrently (installer, 2-3 Get goroutines, an updater created "
+                          "mid-flight, failure toggles; race detector on); every builder call, Close and returned value is logged and TLC searches "
+                          "for the placement of the unlogged steps that explains them"}
+    return "model_checking", cov, ["an install is a successful poll that found a new version; versions stand for bytes (64-byte recognisable values, "
+                                   "the builder checks it was given a whole value of the right secret)",
+                                   "race reports are attributed to the code under test only when a setec frame is on the stack"]
